@@ -336,6 +336,17 @@ pub fn opt_family() -> Vec<RefOpt> {
     ]
 }
 
+/// Option lists with many DISTINCT option codes in one OPT record (an accumulation over codes
+/// shows only when hundreds of different ones meet in one message).
+pub fn opt_many_codes() -> Vec<RefOpt> {
+    let mut out = Vec::new();
+    for (n, stride) in [(50usize, 1u16), (100, 7), (256, 1), (300, 211), (1000, 65), (5000, 13)] {
+        let options: Vec<(u16, B)> = (0..n).map(|i| ((i as u16).wrapping_mul(stride).wrapping_add(if stride == 1 { 0 } else { 3 }), bytes_n(i % 3, i as u8))).collect();
+        out.push(RefOpt { udp: 1232, version: 0, options });
+    }
+    out
+}
+
 /// Header family: every flag subset, named opcodes and rcodes, with and without OPT.
 pub fn header_family() -> Vec<RefPacket> {
     let mut out = Vec::new();
@@ -835,7 +846,7 @@ pub fn field_sweep(sch: &TypeSchema, f: &mut dyn FnMut(&[Val])) {
                     x[i] = Val::U32(!(1u32 << b));
                     f(&x);
                 }
-                for m in magic_u32() {
+                for m in magic_u32().into_iter().chain(ladder_u32()) {
                     x[i] = Val::U32(m);
                     f(&x);
                 }
@@ -847,7 +858,7 @@ pub fn field_sweep(sch: &TypeSchema, f: &mut dyn FnMut(&[Val])) {
                     x[i] = Val::I32(!(1u32 << b) as i32);
                     f(&x);
                 }
-                for m in magic_u32() {
+                for m in magic_u32().into_iter().chain(ladder_u32()) {
                     x[i] = Val::I32(m as i32);
                     f(&x);
                 }
@@ -962,6 +973,10 @@ pub fn size_values(k: Kind) -> Vec<Val> {
             for n in 0..=24usize {
                 out.push(Val::Params((0..n).map(|j| ((j * 3) as u16, bytes_n(j % 5, j as u8))).collect()));
             }
+            // hundreds of distinct keys in one record
+            for n in [100usize, 255, 256, 257, 300, 700] {
+                out.push(Val::Params((0..n).map(|j| ((j * 91 + 7) as u16, bytes_n(j % 3, j as u8))).collect::<std::collections::BTreeMap<u16, B>>().into_iter().collect()));
+            }
             for key in [5u16, 6, 7, 8, 100, 255, 256, 32768, 65279, 65280] {
                 out.push(Val::Params(vec![(key, b(&[1, 2]))]));
             }
@@ -995,6 +1010,9 @@ pub fn size_values(k: Kind) -> Vec<Val> {
             for w in 0..=255u8 {
                 out.push(Val::Windows(vec![(w, B(vec![0x55; 1 + (w as usize % 32)]))]));
             }
+            // every window present at once, and every second one
+            out.push(Val::Windows((0..=255u8).map(|w| (w, B(vec![0x80 >> (w % 8), w]))).collect()));
+            out.push(Val::Windows((0..=255u8).step_by(2).map(|w| (w, B(vec![0xff; 32]))).collect()));
             for l in 1..=32usize {
                 let mut bm = vec![0u8; l];
                 bm[l - 1] = 0x01;
@@ -1134,6 +1152,59 @@ pub fn magic_v6() -> Vec<[u8; 16]> {
     ]
 }
 
+/// Ordered triples of record types in one section (a 16-type subset that spans the RDATA shapes),
+/// and messages holding hundreds of records whose TYPE codes are all different.
+pub fn type_triple_packets() -> Vec<RefPacket> {
+    let pick: Vec<u16> = vec![1, 2, 5, 6, 12, 15, 16, 28, 33, 35, 41, 43, 46, 47, 64, 257];
+    let base: Vec<RefRR> = SCHEMAS.iter().filter(|s| pick.contains(&s.code)).map(base_rr).collect();
+    let mut out = Vec::new();
+    for a in &base {
+        for b2 in &base {
+            for c in &base {
+                let mut p = RefPacket { id: 0x7a1c, flags: F_QR | F_AA, ..Default::default() };
+                p.questions.push(RefQ { name: a.name.clone(), qtype: 255, qclass: 1, unicast: false });
+                p.answers.push(a.clone());
+                p.answers.push(b2.clone());
+                p.answers.push(c.clone());
+                out.push(p);
+            }
+        }
+    }
+    for n in [100usize, 256, 300, 1000] {
+        let mut p = RefPacket { id: 0x7a1d, flags: F_QR, ..Default::default() };
+        for i in 0..n {
+            // codes the reference has no schema for, all distinct
+            let code = 300 + (i as u16) * 13;
+            if !crate::bind::library_has_no_variant_for(code) {
+                continue;
+            }
+            p.answers.push(RefRR { name: RefName::txt("many.example.com"), class: 1, cache_flush: false, ttl: i as u32, rdata: RefRData::Opaque { code, data: bytes_n(1 + i % 4, i as u8) } });
+        }
+        out.push(p);
+    }
+    out
+}
+
+/// A geometric ladder through the 32-bit range (about three values per octave, plus neighbours
+/// of powers of two): any behaviour that depends on a value lying between two thresholds that
+/// are more than ~30 % apart is met by some member.
+pub fn ladder_u32() -> Vec<u32> {
+    let mut v: Vec<u32> = Vec::new();
+    let mut x: u64 = 1;
+    while x <= u32::MAX as u64 {
+        v.push(x as u32);
+        x = x + x * 3 / 10 + 1;
+    }
+    for k in 1..32u32 {
+        v.push((1u32 << k) - 1);
+        v.push((1u32 << k) + 1);
+        v.push((1u32 << k) + (1u32 << k) / 2);
+    }
+    v.sort();
+    v.dedup();
+    v
+}
+
 /// 32-bit values that code tends to special-case: common TTLs and timers, powers of ten and two
 /// and their neighbours, well-known addresses.
 pub fn magic_u32() -> Vec<u32> {
@@ -1244,6 +1315,12 @@ pub fn size_sweep_packets() -> Vec<RefPacket> {
         out.push(p);
     }
     out.extend(type_pair_packets());
+    out.extend(type_triple_packets());
+    for o in opt_many_codes() {
+        let mut p = RefPacket { id: 0x5129, flags: F_QR, opt: Some(o), ..Default::default() };
+        p.questions.push(RefQ { name: RefName::txt("example.com"), qtype: 1, qclass: 1, unicast: false });
+        out.push(p);
+    }
     // every name-bearing type under every class (and with the cache-flush bit), names repeated so
     // that compression has work to do whatever the class
     for sch in SCHEMAS {
@@ -1263,7 +1340,7 @@ pub fn size_sweep_packets() -> Vec<RefPacket> {
         }
     }
     // every magic 32-bit value as TTL (plain and with the cache-flush bit) and as an A address / SOA timer
-    for (j, m) in magic_u32().into_iter().enumerate() {
+    for (j, m) in magic_u32().into_iter().chain(ladder_u32()).enumerate() {
         let mut p = RefPacket { id: 0x5126, flags: F_QR, ..Default::default() };
         p.answers.push(RefRR { name: RefName::txt("ttl.example.com"), class: 1, cache_flush: j % 2 == 1, ttl: m, rdata: RefRData::Typed { code: 1, vals: vec![Val::U32(m)] } });
         let soa = schema::schema(6).unwrap();
@@ -1439,6 +1516,33 @@ pub fn many_and_sized_packets() -> Vec<RefPacket> {
             vals[0] = Val::Strs(strs);
         }
         out.push(p);
+    }
+    // one record whose RDATA has exactly L bytes, L through the 16-bit range (opaque and TXT),
+    // between two small records that share its owner name
+    for l in [255usize, 256, 257, 4095, 4096, 16383, 16384, 16385, 32766, 32767, 32768, 32769, 40000, 49151, 49152, 65279, 65280, 65534, 65535] {
+        for kind in 0..2 {
+            let rdata = if kind == 0 {
+                RefRData::Opaque { code: 65280, data: bytes_n(l, l as u8) }
+            } else {
+                let mut strs = Vec::new();
+                let mut need = l;
+                while need > 0 {
+                    let s = (need - 1).min(255);
+                    strs.push(bytes_n(s, need as u8));
+                    need -= 1 + s;
+                }
+                RefRData::Typed { code: 16, vals: vec![Val::Strs(strs)] }
+            };
+            if kind == 0 && !crate::bind::library_has_no_variant_for(65280) {
+                continue;
+            }
+            let mut p = RefPacket { id: 0x512f, flags: F_QR, ..Default::default() };
+            p.questions.push(RefQ { name: RefName::txt("big.example.com"), qtype: 255, qclass: 1, unicast: false });
+            p.answers.push(rr("big.example.com", RefRData::Typed { code: 1, vals: vec![Val::U32(0x7f000001)] }));
+            p.answers.push(rr("big.example.com", rdata));
+            p.additional.push(rr("after.big.example.com", RefRData::Typed { code: 5, vals: vec![Val::Name(RefName::txt("big.example.com"))] }));
+            out.push(p);
+        }
     }
     out
 }
